@@ -60,7 +60,13 @@ X_KEYWORD_NAMES = ("module xm10\n  integer :: blocks(3), interfaces(2), block_si
 X_FIXED_COMMENTS = ("      subroutine xdemo(n, b)\n      implicit none\n      integer n, ! first\n     &        b ! second\nDo not change the next line\n"
                     "Call the other one\n      n = b +\n     $n\n      end subroutine xdemo\n      subroutine xother2(m)\n      integer m\n      end subroutine xother2\n")
 
+X_BOUND_UNDECL = ("module xm12\n  type xt12\n  contains\n    procedure :: foo => xfoo12\n    procedure, pass(self) :: bar => xbar12\n  end type xt12\ncontains\n"
+                  "  subroutine xfoo12(self, a, undecl)\n    class(xt12) :: self\n    integer :: a\n  end subroutine xfoo12\n"
+                  "  subroutine xbar12(a, self, undecl2)\n    class(xt12) :: self\n    integer :: a\n  end subroutine xbar12\n"
+                  "  subroutine xq12(x)\n    type(xt12) :: x\n    call x%foo(1, 2)\n    call x%bar(1, 2)\n    call x%foo(1, \n  end subroutine xq12\nend module xm12\n")
+
 EXTRA = {
+    "x12.f90": X_BOUND_UNDECL,
     "x1.f90": X_DEFERRED_UNDECL, "x2.f90": X_CHAIN, "x3.f90": X_INC_MAIN, "xvars.f90": X_INC_VARS, "x4.f90": X_MASK_INTRINSIC,
     "x5.f90": X_TYPE_IN_IFACE, "x6.f90": X_PASS_VAR, "x7.f90": X_LINK_GENERIC, "x8.f90": X_RESULT_PTR, "x9.f90": X_PASS_PTR,
     "x10.f90": X_KEYWORD_NAMES, "x11.f": X_FIXED_COMMENTS,
